@@ -1166,6 +1166,12 @@ func (i *interpreter) conv(t_dst, t_src types.Type, x value) value {
 			if p, ok := x.(unsafe.Pointer); ok && kd == types.Uintptr {
 				return uintptr(p)
 			}
+			if p, ok := x.(unsafe.Pointer); ok {
+				if _, isPtr := ut_dst.(*types.Pointer); isPtr {
+					// unsafe.Pointer -> *T: cells are addressed by *value
+					return (*value)(p)
+				}
+			}
 			return zero(t_dst)
 		}
 
